@@ -23,7 +23,7 @@ pub fn def() -> CheckDef {
                network with one extra regulation constraint must give the same states for every colour that stays valid. One case in 25 is a WIDE network \
                (5-6 stable inputs, t := f(inputs) with an unknown f, i.e. 2^32 / 2^64 colours, more BDD variables than an f64 mantissa has bits) with a \
                temporal formula over a sub-formula that holds for exactly one colour (f = a random Boolean function, pinned by a forall/jump formula): \
-               the states of that colour and of two other colours must equal the result on the network with f replaced by the function. Non-trivial: the \
+               the states of that colour and of two other colours must equal the result on the network with f replaced by the function (extended cases include two nested restricted quantifiers over colour-dependent domains). Non-trivial: the \
                formula's answer differs between at least two of the compared colours; distinct by (network, formula).",
         assumptions: &["the harness's instantiation (truth table -> DNF) is independent of the library; regulation flags of the instantiated network are dropped"],
         cases: |t| (if t == Tier::Quick { 2500 } else { 120_000 }) + super::big::count(t),
